@@ -97,8 +97,8 @@ theorem dynamic_candidate_sound_false :
     Candidate.mem (.int64 4) (.range ⟨.unbounded, .included (.int64 3), true⟩) = false ∧
     candidateOfTag false .greaterThanOrEqual (.some (.uint64 3)) (.range Range.fullNonNull)
       = .ok (.range ⟨.unbounded, .included (.uint64 3), false⟩) ∧
-    Candidate.mem (.uint64 4) (.range ⟨.unbounded, .included (.uint64 3), false⟩) = false := by
-  decide
+    Candidate.mem (.uint64 4) (.range ⟨.unbounded, .included (.uint64 3), false⟩) = false :=
+  ⟨by decide, rfl, by decide, rfl, by decide⟩
 
 /-- With the `>=` arm repaired (`Range::with_start`), the statement holds for `>=` too. -/
 theorem dynamic_candidate_ge_sound_when_repaired (ni : Bool) (x v : Value) (initial c : Candidate)
@@ -140,11 +140,11 @@ theorem non_binding_reports_nothing (args : List (Name × Value)) (comp : Compon
     (∃ r, dynamicallyRequired args i v p = .ok r ∧ r.isNone = true) ∧
     mandatoryEdges args comp i = .ok [] := by
   refine ⟨by simp [staticallyRequired, h], ⟨none, by simp [dynamicallyRequired, h], rfl⟩, ?_⟩
-  simp only [mandatoryEdges, mandatoryEdgesWithName, h, ↓reduceIte]
+  simp only [mandatoryEdges]
   generalize outgoingNames comp i.vid = l
   induction l with
   | nil => rfl
-  | cons n ns ih => simp [flatMapR, ih]
+  | cons n ns ih => simp [flatMapR, mandatoryEdgesWithName, h, ih]
 
 theorem optional_edge_non_binding (e : IREdge) (h : e.optional = true) :
     (VInfo.ofEdge e).nonBinding = true := by
@@ -161,7 +161,7 @@ theorem optional_fold_lookahead_non_binding (args : List (Name × Value)) (i : V
     e.isMandatory = false ∧ e.destination.nonBinding = true := by
   simp only [VInfo.foldedEdge, h, R.map] at he
   cases he
-  cases hi : i.isResolveInfo <;> simp [EInfo.isMandatory, VInfo.nonBinding, hi]
+  cases i.isResolveInfo <;> simp [EInfo.isMandatory, VInfo.nonBinding]
 
 /-- An `@optional` or `@recurse` edge, and a fold that may be empty, are never mandatory. -/
 theorem mandatory_edge_shape (e : EInfo) (h : e.isMandatory = true) :
